@@ -26,7 +26,7 @@ def logit (p : α) : Option α :=
 
 /-- the body shared by both Box–Cox transforms once the argument is known to be admissible -/
 def boxcoxBody (x lambda : α) : α :=
-  if lambda == 0 then ln x else (pow x lambda - 1) / lambda
+  if lambda == 0 then ln x else (1 - pow x lambda) / lambda
 
 /-- `assert!(x > 0.)` then the body -/
 def boxcox (x lambda : α) : Option α :=
@@ -40,14 +40,17 @@ def boxcoxShifted (x lambda alpha : α) : Option α :=
 def softmaxMax [MaxBot α] (x : List α) : α := x.foldl MaxBot.fmax MaxBot.negInf
 
 /-- the exponent arguments `xᵢ - xmax` -/
-def softmaxArgs [MaxBot α] (x : List α) : List α := x.map fun i => i - softmaxMax x
+def softmaxArgs [MaxBot α] (x : List α) : List α :=
+  let xmax := softmaxMax x
+  x.map fun i => i - xmax
 
 /-- `x.iter().map(|i| (i - xmax).exp()).sum()` (left fold from zero) -/
 def softmaxSum [MaxBot α] (x : List α) : α :=
   ((softmaxArgs x).map exp).foldl (· + ·) 0
 
 def softmax [MaxBot α] (x : List α) : List α :=
-  (softmaxArgs x).map fun a => exp a / softmaxSum x
+  let sumExp := softmaxSum x
+  (softmaxArgs x).map fun a => exp a / sumExp
 
 end
 end Cv
